@@ -189,6 +189,25 @@ def run(ctx):
                     r4.bad('no-replay', 'after a periodic activation last_run is not set to the current time: missed activations would be replayed in later cycles', loc=fn.loc(lr[0]))
             else:
                 r4.bad('period-memory-only-when-due', 'periodic_due / last_run shape not recognised', loc=fn.loc(0))
+            # the due time of a periodic activation is the first missed boundary: a function of the schedule
+            # memory (last_run) and the interval only, independent of the current clock sample
+            fromn = [(b, t) for b, nm, t in fn.calls(lambda n: re.search(r'Duration::from_nanos$', n) is not None) if b in loop]
+            if pd and fromn:
+                pos, neg, _ = test_edges(fn, {pd[0]: ('bool', True)})
+                per = [(b, t) for b, t in fromn if pos and guarded(fn, b, pos)]
+                if len(per) != 1:
+                    r4.bad('due-time-from-schedule-memory', 'expected one due-time construction under the periodic condition, found %d' % len(per), loc=fn.loc(fromn[0][0]))
+                else:
+                    b, t = per[0]
+                    fields = _dep_fields(fn, t['a'][0])
+                    has_lr = any(f.endswith('TaskState.last_run') for f in fields)
+                    has_iv = any(f.endswith('.interval') for f in fields)
+                    has_now = any(f.endswith('Runtime.current_time') for f in fields)
+                    if has_lr and has_iv and not has_now:
+                        r4.ok('due-time-from-schedule-memory', loc=fn.loc(b))
+                    else:
+                        r4.bad('due-time-from-schedule-memory', 'the due time of a periodic activation (the FIFO key among equal priorities) must be last_run + interval, the instant the activation first became due; here it depends on %s: after an overrun the task is ranked as if it became due later' % (
+                            'the current clock sample' if has_now else 'neither last_run nor the interval' if not (has_lr or has_iv) else 'only part of (last_run, interval)'), loc=fn.loc(b))
             # overrun_count only via saturating_add
             oc_blocks = [b for b in fn.g if fn.assigns_field(b, lambda f: f.endswith('TaskState.overrun_count'))]
             sat = all((fn.call_name(b) or '').endswith('saturating_add') or any(
@@ -250,6 +269,41 @@ def run(ctx):
                     r5.ok('task-once|%s' % what)
                 else:
                     r5.bad('task-once|%s' % what, 'a task does not execute each of its %s exactly once per activation' % what, loc=fn.loc(blk[0]))
+
+
+def _dep_fields(fn, o, limit=600):
+    """all struct fields the value of operand o data-depends on (through every call argument and operator)"""
+    fields, seen, st = set(), set(), []
+
+    def push(op):
+        if op[0] in ('c', 'm'):
+            st.append(op[1][0])
+            for f in place_fields(op[1]):
+                fields.add(f)
+    push(o)
+    while st and len(seen) < limit:
+        l = st.pop()
+        if l in seen:
+            continue
+        seen.add(l)
+        for (b, k, payload) in fn.defs.get(l, []):
+            if k == 'A':
+                rv = payload
+                if rv[0] == 'use':
+                    push(rv[1])
+                elif rv[0] in ('cast', 'un'):
+                    push(rv[2])
+                elif rv[0] == 'bin':
+                    push(rv[2]); push(rv[3])
+                elif rv[0] == 'ref':
+                    push(['c', rv[2]])
+                elif rv[0] == 'agg':
+                    for x in rv[2]:
+                        push(x)
+            elif k == 'C':
+                for a in payload['a']:
+                    push(a)
+    return fields
 
 
 def _copy_src(fn, l, depth=0):
